@@ -52,8 +52,8 @@ Inductive rt2_ty : ty -> Prop :=
 | r2_set e : rt_ty e -> rt2_ty (TSeq SeqSet e)                 (* sets are written as lists and rebuilt *)
 | r2_frozenset e : rt_ty e -> rt2_ty (TSeq SeqFrozenSet e)
 | r2_class h fs :
-    Forall (fun ft => rt2_ty (snd ft)) fs -> Forall plain_shape fs -> NoDup (names fs) ->
-    (c_out_tuple h = false /\ has_fmt FStruct h = true \/
+    Forall (fun ft => rt2_ty (snd ft)) fs -> Forall base_shape fs -> NoDup (names fs) ->
+    (c_out_tuple h = false /\ has_fmt FStruct h = true /\ NoDup (out_names fs) /\ Forall (reads_own_output fs) fs \/
      c_out_tuple h = true /\ has_fmt FTuple h = true /\ Forall (fun ft => f_kw_only (fst ft) = false) fs) ->
     rt2_ty (TClass h fs)
 | r2_optional h fs : rt2_ty (TClass h fs) -> rt2_ty (TUnion [TClass h fs; TNone]).
@@ -255,8 +255,8 @@ Proof.
     match goal with HR : Forall (fun ft => rt2_ty (snd ft)) fs |- _ => pose proof (forall_mp _ _ _ H HR) as Q end.
     assert (Q' : Forall (fun ft : fld * ty => forall v x, tc (snd ft) v = Ok x -> rt2_val (snd ft) x) fs) by exact Q.
     intros v x Hx.
-    match goal with HD : _ \/ _ |- _ => destruct HD as [(OT & FS)|(OT & FT & K)] end.
-    + destruct (class_roundtrip_gen same_val same_hook h fs ltac:(assumption) ltac:(assumption) Q' v x OT FS Hx)
+    match goal with HD : _ \/ _ |- _ => destruct HD as [(OT & FS & No & Rd)|(OT & FT & K)] end.
+    + destruct (class_roundtrip_gen same_val same_hook h fs ltac:(assumption) ltac:(assumption) No Rd Q' v x OT FS Hx)
         as (fields & setf & d & fields' & -> & I & T & Rl).
       exists d, (VInst (c_name h) fields' (map fst fields')). repeat split; auto.
       apply sv_inst. exact (forall2_flip _ _ _ Rl).
